@@ -20,3 +20,14 @@ func (c *Controller) ZZGuard() {
 	zzverif.Guard(c.clientCfgs, &c.mu, "nathole.Controller.clientCfgs")
 	zzverif.Guard(c.sessions, &c.mu, "nathole.Controller.sessions")
 }
+
+// ZZAllow returns the secret and the allowed-users list registered for an xtcp proxy (nil, false if none).
+func (c *Controller) ZZAllow(name string) (string, []string, bool) {
+	c.mu.RLock()
+	defer c.mu.RUnlock()
+	cfg, ok := c.clientCfgs[name]
+	if !ok {
+		return "", nil, false
+	}
+	return cfg.sk, append([]string(nil), cfg.allowUsers...), true
+}
